@@ -416,6 +416,11 @@ class BaseOdeModel(object):
         else:
             raise InputError("Expecting a list")
 
+        # states added after construction have the default limits
+        if hasattr(self, "_state_lims"):
+            n_missing = len(self._stateList) - len(self._state_lims)
+            self._state_lims = list(self._state_lims) + [(0, None)]*n_missing
+
         self._hasNewTransition.trip()
 
     @property
@@ -799,8 +804,15 @@ class BaseOdeModel(object):
             # else:
             #     raise InputError("Input type should either be a string or list")
 
-            self._state_lims=lim_list                           # TODO: maybe assigning limits via a dict is tidier/safer
-            self.__setattr__(attr_list_name, list(attr_list))
+            # TODO: maybe assigning limits via a dict is tidier/safer
+            # One pair of limits per state: a range-style name such as 'y1:4'
+            # unrolls into several states and each of them gets the limits
+            # given (or assumed) for that name.
+            self._state_lims=[]
+            for att, lim in zip(attr_list, lim_list):
+                n_before=len(self._stateList)
+                self.__setattr__(attr_list_name, [att])
+                self._state_lims[n_before:]=[lim]*(len(self._stateList) - n_before)
 
         else:
             raise InputError("No attribute passed to function")
